@@ -15,7 +15,7 @@ from vlib import Verdict
 PID = "C08"
 PROPS = [("theories/MemBuf/Props.v", "MemBuf.Props")]
 AREAS = ["theories/MemBuf"]
-MUTATORS = {"set", "flags", "staging", "release", "cleanup", "cp", "revert", "limits"}
+MUTATORS = {"set", "flags", "staging", "release", "cleanup", "cp", "revert", "limits", "bopen", "bnext"}  # bopen/bnext mutate the harness' iterator object
 MAX_MINIMISE = 4
 
 
